@@ -57,6 +57,11 @@ def check(run):
 
 
 def rule_pieces(run, F, cfg):
+    with F.fn(AR).normalised():
+        _rule_pieces(run, F, cfg)
+
+
+def _rule_pieces(run, F, cfg):
     f = F.fn(AR)
     run.touched(f)
     idx = f.calls(r"as std::ops::Index<.*>>::index$")
@@ -65,7 +70,7 @@ def rule_pieces(run, F, cfg):
            f"every slice in apply_removeparam is a slice of request.original_url ({len(idx)} slices; bases {sorted(bases)})",
            site=f.loc(idx[0][0]) if idx else "", config=cfg)
     ranges = [f.expr_operand(t["args"][1]) for b, t in idx]
-    head = any(re.match(r"^std::ops::Range::Range\{start: 0, end: memchr::memchr\(63, .*arg:request\.original_url.*\)@Some\.0\}$", r)
+    head = any(re.match(r"^std::ops::(Range::Range\{start: 0, |RangeTo::RangeTo\{)end: memchr::memchr\(63, .*arg:request\.original_url.*\)@Some\.0\}$", r)
                for r in ranges)
     run.ob("C14.1.piece-provenance", "head=url[0..first-?]", head,
            "the kept head is url[0..i] with i = memchr('?', <prefix of url>)", config=cfg)
@@ -167,6 +172,11 @@ def rule_constants(run, F, cfg):
 
 
 def rule_removal(run, F, cfg):
+    with F.fn(AR).normalised():
+        _rule_removal(run, F, cfg)
+
+
+def _rule_removal(run, F, cfg):
     n = 0
     ok = True
     for c in F.closures_of(AR):
@@ -303,10 +313,12 @@ def rule_removal(run, F, cfg):
            site=stray[0] if stray else f.loc(0), config=cfg,
            detail="an additional early `return None` (a length / shape shortcut on the query string) suppresses "
                   "rewrites for the inputs it misjudges")
-    keep = [c.expr_local(0) for c in cls if c.name.endswith("{closure#3}")]
-    nots = [1 for c in cls if c.name.endswith("{closure#3}") for b, i, st in c.statements()
-            if st["k"] == "assign" and st["rv"]["k"] == "unop"]
     flt = f.calls(r"^std::iter::Iterator::filter$")
+    # the closure handed to that filter (identified by the call, not by its position among the function's closures)
+    fnames = set(re.findall(r"closure\[([^\]]+)\]", " ".join(f.expr_operand(t["args"][1]) for b, t in flt if len(t["args"]) > 1)))
+    keep = [c.expr_local(0) for c in cls if c.name in fnames]
+    nots = [1 for c in cls if c.name in fnames for b, i, st in c.statements()
+            if st["k"] == "assign" and st["rv"]["k"] == "unop"]
     run.ob("C14.3.removal-condition", "filter-keeps-included", keep == ["arg:2.1"] and not nots and len(flt) == 1,
            f"the re-join keeps exactly the entries whose include flag is true (filter closure returns {keep}, "
            f"no negation)", config=cfg)
